@@ -258,7 +258,9 @@ def replay_localapp(rec, m):
                 out = "returned"
             except Exception as e:
                 out = type(e).__name__
-            return app.cleanups != 1, f"start() with a missing binary: {out}, state={app._state}, clean_up calls={app.cleanups}"
+            # the launch failure itself must reach the caller (an OSError), after clean-up has run once
+            bad = app.cleanups != 1 or out not in ("FileNotFoundError", "PermissionError", "OSError", "NotADirectoryError")
+            return bad, f"start() with a missing binary: {out}, state={app._state}, clean_up calls={app.cleanups}"
     finally:
         os.chdir(cwd0)
     return None, "no replay for this obligation"
